@@ -1,5 +1,6 @@
 import JP.Check
 import JP.Legacy.Check
+import JP.Codec.EncodeWire
 
 /-!
 # Request handling of the line-protocol driver (pure part)
@@ -593,10 +594,20 @@ def handleCodec (id : String) (args : List String) : String :=
                | _ => .viol "quote-not-a-string")
             | _ => .viol "quote-failed"
           some (m, v)
+        else if fn = "enc" then
+          -- MarshalEscaped on a Go value in the wire format of `JP/Codec/EncodeWire.lean`: the literal
+          -- model of the reflective encoder (`JP/Codec/Encode.lean`).  A panic is part of the model
+          -- (a node with `which = eAry` and a nil array), so C04 is judged on agreement only.
+          match Codec.Enc.decodeWire y with
+          | none => none
+          | some g =>
+            let m : Obs := obsOf (Codec.Enc.marshalEscaped esc g)
+            some (m, if sameObs m obs then .ok else .viol "encoder-differs")
         else none
+      let fam : String := if fn = "enc" then "enc-" ++ ((Codec.Enc.decodeWire y).map Codec.Enc.wireFamily).getD "?" else fn
       match res with
-      | some (m, v) => reply id (sameObs m obs) (showObs m) [("C17", v), ("C04", if obs.bad then .viol "panic-or-hang" else .ok)]
-                         (fn ++ "/" ++ obsClass obs ++ "/" ++ toString (min y.length 16))
+      | some (m, v) => reply id (sameObs m obs) (showObs m) [("C17", v), ("C04", if obs.bad && !(fn = "enc" && sameObs m obs) then .viol "panic-or-hang" else .ok)]
+                         (fam ++ "/" ++ obsClass obs ++ "/" ++ toString (min y.length 16))
       | none => bad id "codec-fn"
     | _, _, _ => bad id "codec-fields"
   | _ => bad id "codec-arity"
